@@ -64,11 +64,12 @@ class LawLog:
         path = tlc.write_json({"events": [], "blocks": blocks, "required": req, "known": active}, "law-%s-cov" % tag)
         r = tlc.run("LawTrace", cfg_text="SPECIFICATION Spec\nINVARIANT Coverage\n", env={"LAW_FILE": path}, timeout=3000, heap="8g")
         ctx.add_tlc("lawtrace-%s-coverage" % tag, r)
+        cov_fail = None
         if "Coverage" in r.violated:
             have = {(b["law"], b["region"]): b["hi"] - b["lo"] + 1 for b in blocks}
             miss = [(k, m, have.get(k, 0)) for k, m in self.required.items() if have.get(k, 0) < m]
-            ctx.machinery("law/region obligations not exercised (law, region), min, seen: %s" % miss[:10])
-        if r.violated or r.errors:
+            cov_fail = "law/region obligations not exercised (law, region), min, seen: %s" % miss[:10]
+        elif r.violated or r.errors:
             ctx.machinery("LawTrace (coverage) failed:\n" + r.counterexample())
         bad = set(i for j in jsons if j.get("k") == "BAD" for i in j["s"])
         known = set(i for j in jsons if j.get("k") == "KNOWN" for i in j["s"])
@@ -92,6 +93,12 @@ class LawLog:
                               expected="residual <= 1000 (units of tol/1000)", observed=units, tags=[k] if k else [])
             else:
                 ctx.violations += 1
+        # an obligation that was not exercised is a machinery failure - unless violations were found: code that breaks a law
+        # often also stops the cases behind it from being reached, and the violation is the verdict then
+        if cov_fail:
+            if ctx.violations == 0:
+                ctx.machinery(cov_fail)
+            print("  (also: " + cov_fail[:300] + ")")
         counts = {}
         for j in jsons:
             if j.get("k") == "BLOCK":
